@@ -4,7 +4,8 @@ From Coq Require Import ZArith List Bool Ascii String Lia ZifyBool.
 From Cnfgen Require Import Sem Comb Linear IR Text Dimacs OpbText OpbTextFacts Cli GraphSpec GText GraphIO Subst FamTab FamFast
      Fam_php Fam_count Fam_cliquecol Fam_subsetcard C02Common Fam_tseitin Fam_coloring Fam_domset Fam_subgraph
      C03_Util Fam_ordering Fam_ramsey Fam_cpls Fam_pebbling PipelineGraph.
-From Cnfgen Require Import SemFacts GraphSpecFacts IRFacts IRRange SubstFacts DimacsFacts EndToEnd CliFacts FamFastFacts
+From Cnfgen Require PipelinePbFacts.
+From Cnfgen Require Import TextFacts PipelineOptFacts SemFacts GraphSpecFacts IRFacts IRRange SubstFacts DimacsFacts EndToEnd CliFacts FamFastFacts
      FamRange_Util FamRange_C01 FamRange_C02 FamRange_C03 C03_UtilFacts GraphIOFacts GraphIOSound PipelineGraphFacts Pipeline
      PipelineFacts PipelineFiles.
 Import ListNotations.
@@ -367,4 +368,363 @@ Proof.
       by (rewrite <- app_assoc; reflexivity).
     destruct (plf_formula_step a t tc env) as [W E]; try assumption.
     rewrite (IH tcs' _ W); [|assumption|assumption]. now rewrite E.
+Qed.
+
+(* ------------------------------------------------------------------ *)
+(* kthlist2pebbling: totality and round trip                           *)
+(* ------------------------------------------------------------------ *)
+Lemma plf_step_good r t : plf_good r -> plf_good (pl_step r t).
+Proof.
+  destruct r as [n F| | |]; cbn [pl_step plf_good]; intros H; try exact H.
+  pose proof (pl_step_good (FrOk n F) t H) as G. cbn [pl_step] in G. destruct (pl_transform t n F); try exact G. exact I.
+Qed.
+
+Lemma k2p_start_good bytes : plf_good (k2p_start_with pl_build bytes).
+Proof.
+  unfold k2p_start_with. destruct (negb (pl_is_ascii bytes)); [exact I|].
+  destruct (gio_read_graph true TDag FKthlist bytes) as [G|e] eqn:E.
+  - pose proof (pl_build_good (FcPeb (plg_preds (io_n G) (io_edges G))) I) as H.
+    destruct (pl_build _); try exact H. exact I.
+  - assert (e = EValueError) as -> by (apply (read_graph_exn true TDag FKthlist bytes e); [discriminate|discriminate|exact E]).
+    exact I.
+Qed.
+
+Theorem k2p_formula_good argv env : plf_good (k2p_formula argv env).
+Proof.
+  unfold k2p_formula, k2p_formula_with. destruct (k2p_parse argv env) as [c| |]; try exact I.
+  unfold k2p_run_with. destruct (k2p_trans c); [apply plf_step_good|]; apply k2p_start_good.
+Qed.
+
+Theorem k2p_formula_no_crash argv env : k2p_formula argv env <> FrCrash.
+Proof. intros E. pose proof (k2p_formula_good argv env) as G. rewrite E in G. exact G. Qed.
+
+Theorem k2p_main_total argv env :
+  (exists text, k2p_main argv env = POut text) \/ k2p_main argv env = PCliError \/ k2p_main argv env = POutside.
+Proof.
+  unfold k2p_main. pose proof (k2p_formula_no_crash argv env) as H.
+  destruct (k2p_formula argv env) as [n F| | |]; cbn [pl_render].
+  - destruct (k2p_quiet_of argv env); [left; eexists; reflexivity|right; right; reflexivity].
+  - right; left; reflexivity.
+  - contradiction.
+  - right; right; reflexivity.
+Qed.
+
+Theorem k2p_main_roundtrip argv env text : k2p_main argv env = POut text ->
+  exists n F, k2p_formula argv env = FrOk n F /\ text = print_dimacs None None n F /\
+              0 <= n /\ lits_in_range n F = true /\
+              (printable n -> printable (len F) -> forall u, parse_dimacs u text = DOk n F).
+Proof.
+  unfold k2p_main. destruct (k2p_formula argv env) as [n F| | |] eqn:E; cbn [pl_render]; try discriminate.
+  destruct (k2p_quiet_of argv env); [|discriminate]. intros H. inversion H; subst.
+  pose proof (k2p_formula_good argv env) as G. rewrite E in G. destruct G as [Hn HR].
+  exists n, F. refine (conj eq_refl (conj eq_refl (conj Hn (conj HR _)))).
+  intros P1 P2. exact (pl_write_reads_back false None n F Hn HR P1 P2).
+Qed.
+
+Theorem k2p_main_fast_eq argv env : k2p_main_fast argv env = k2p_main argv env.
+Proof.
+  unfold k2p_main_fast, k2p_main, k2p_formula, k2p_formula_with. destruct (k2p_parse argv env) as [c| |]; try reflexivity.
+  unfold k2p_run_with, k2p_start_with. destruct (negb (pl_is_ascii (k2p_input c))); [reflexivity|].
+  destruct (gio_read_graph true TDag FKthlist (k2p_input c)) as [G|e]; [|reflexivity].
+  now rewrite pl_build_fast_eq.
+Qed.
+
+(* ------------------------------------------------------------------ *)
+(* kthlist2pebbling is `cnfgen peb kthlist <file>`                     *)
+(* ------------------------------------------------------------------ *)
+Lemma plf_classify_nodash fl lo t : pl_starts_dash t = false -> pl_classify_gen fl lo t = PlPos t.
+Proof. destruct t as [|c r]; [reflexivity|]. cbn [pl_starts_dash pl_classify_gen]. intros ->. reflexivity. Qed.
+
+(* an explicit format token followed by a name and nothing else: the file is read in that format *)
+Lemma plf_graph_arg_explicit env g fmt f :
+  gs_mem fmt (gs_constructions g) = false -> gs_mem fmt (gs_formats g) = true -> gs_teqb fmt gs_autodetect = false ->
+  plf_graph_arg env g [fmt; f] = plf_read env g f fmt.
+Proof.
+  intros H1 H2 H3. unfold plf_graph_arg, gs_parse. rewrite H1, H2. cbn [gs_options_loop List.length p_construction p_opts].
+  unfold gs_validate, gs_obtain_graph. cbn [p_gtype p_construction p_filename p_fileformat p_opts gs_lookup gs_opt_step].
+  unfold gs_read_input. rewrite H3, H2. cbn [gs_bind].
+  destruct g; cbn [gs_bind gs_opt_step gs_lookup app]; reflexivity.
+Qed.
+
+(* the first chunk  -q peb kthlist <f> *)
+Definition plf_peb_of (G : iograph) : pl_fcmd := FcPeb (plg_preds (io_n G) (io_edges G)).
+
+Lemma plf_peb_chunk0 env f : pl_is_ascii (lit f) = true -> pl_starts_dash (lit f) = false ->
+  plf_parse_chunk0 env (map lit ["-q"; "peb"; "kthlist"; f]%string) =
+  match plf_read env GSDag (lit f) (lit "kthlist") with
+  | PlOk G => PlOk (mk_pl_opts true false, Some (GenCmd (plf_peb_of G)))
+  | PlErr => PlErr
+  | PlOutside => PlOutside
+  end.
+Proof.
+  intros HA HD. unfold plf_parse_chunk0. cbn [map forallb]. rewrite HA.
+  change (pl_is_ascii (lit "-q")) with true. change (pl_is_ascii (lit "peb")) with true. change (pl_is_ascii (lit "kthlist")) with true.
+  cbn [andb negb]. cbn [plf_parse_main].
+  change (gs_teqb (lit "-q") (lit "-q")) with true. cbn [orb]. cbv iota.
+  change (gs_teqb (lit "peb") (lit "-q") || gs_teqb (lit "peb") (lit "--quiet")) with false.
+  change (gs_teqb (lit "peb") (lit "-v") || gs_teqb (lit "peb") (lit "--verbose")) with false.
+  change (gs_teqb (lit "peb") (lit "-of") || gs_teqb (lit "peb") (lit "--output-format")) with false.
+  change (pl_starts_dash (lit "peb")) with false. change (pl_is (lit "peb") "dimacs") with false. cbv iota.
+  assert (E : plf_parse_formula (plf_graph_arg env) (lit "peb") [lit "kthlist"; lit f] =
+              pl_map_parsed plf_peb_of (plf_read env GSDag (lit f) (lit "kthlist"))).
+  { unfold plf_parse_formula.
+    repeat match goal with |- context [pl_is (lit "peb") ?s] =>
+             let b := eval vm_compute in (pl_is (lit "peb") s) in change (pl_is (lit "peb") s) with b; cbv iota end.
+    unfold plf_parse_graph_only. cbn [map]. unfold pl_classify.
+    rewrite (plf_classify_nodash [] [] (lit f) HD). change (pl_classify_gen [] [] (lit "kthlist")) with (PlPos (lit "kthlist")).
+    cbn [existsb pl_is_out pl_is_unknown orb]. unfold pl_plus, pl_runs. cbn [pl_runs_aux rev app].
+    rewrite (plf_graph_arg_explicit env GSDag (lit "kthlist") (lit f)); reflexivity. }
+  rewrite E. destruct (plf_read env GSDag (lit f) (lit "kthlist")); reflexivity.
+Qed.
+
+(* reading the graph: the two programs see the same outcomes *)
+Lemma plf_read_dag_kind text G : gio_read_graph true TDag FKthlist text = GOk G -> io_kind G = GioDirected.
+Proof.
+  unfold gio_read_graph, gio_read_graph_gen. cbn [gio_supported existsb gio_fmt_eqb orb negb app gio_kind_of].
+  destruct (gio_read_kth_gen false GioDirected text) as [G0|e] eqn:E; cbn [gio_bind]; [|discriminate].
+  destruct (gio_is_dag G0); [|discriminate]. intros H. inversion H; subst G0.
+  apply (kth_sound GioDirected) in E; [|discriminate]. destruct E as (? & ? & ? & ? & _ & _ & _ & K & _). exact K.
+Qed.
+
+Lemma plf_read_text_k2p text :
+  match plf_read_text GSDag FKthlist text with
+  | PlOk G => k2p_start_with pl_build text = pl_build (plf_peb_of G)
+  | PlErr => k2p_start_with pl_build text = FrErr
+  | PlOutside => k2p_start_with pl_build text = FrOutside
+  end.
+Proof.
+  unfold plf_read_text, k2p_start_with. destruct (negb (pl_is_ascii text)); [reflexivity|].
+  cbn [plf_gtype_of plg_kind_of].
+  destruct (gio_read_graph true TDag FKthlist text) as [G|e] eqn:E.
+  - rewrite (plf_read_dag_kind text G E). reflexivity.
+  - assert (e = EValueError) as -> by (apply (read_graph_exn true TDag FKthlist text e); [discriminate|discriminate|exact E]).
+    reflexivity.
+Qed.
+
+Lemma plf_read_kthlist env f : plf_read env GSDag f (lit "kthlist") =
+  match plf_open env f with Some text => plf_read_text GSDag FKthlist text | None => PlErr end.
+Proof. unfold plf_read. destruct (plf_open env f); reflexivity. Qed.
+
+(* the options of kthlist2pebbling in front of the transformation *)
+Lemma k2p_parse_quiet env q input sq rest : In sq ["-q"; "--quiet"]%string ->
+  k2p_parse_main env q input (lit sq :: rest) = k2p_parse_main env true input rest.
+Proof. intros [<-|[<-|[]]]; reflexivity. Qed.
+
+Lemma k2p_parse_input env q input si f rest : In si ["-i"; "--input"]%string -> pl_starts_dash (lit f) = false ->
+  k2p_parse_main env q input (lit si :: lit f :: rest) =
+  match plf_open env (lit f) with Some text => k2p_parse_main env q text rest | None => PlErr end.
+Proof.
+  intros Hs HD. cbn [k2p_parse_main].
+  assert (E1 : gs_teqb (lit si) (lit "-q") || gs_teqb (lit si) (lit "--quiet") = false) by (destruct Hs as [<-|[<-|[]]]; reflexivity).
+  assert (E2 : gs_teqb (lit si) (lit "-i") || gs_teqb (lit si) (lit "--input") = true) by (destruct Hs as [<-|[<-|[]]]; reflexivity).
+  rewrite E1, E2, HD. reflexivity.
+Qed.
+
+Lemma k2p_parse_trans env q input name args : pl_starts_dash name = false ->
+  k2p_parse_main env q input (name :: args) =
+  match pl_parse_transformation name args with
+  | PlOk c => PlOk (mk_k2p_cmdline q input (Some c))
+  | PlErr => PlErr
+  | PlOutside => PlOutside
+  end.
+Proof.
+  intros HD. cbn [k2p_parse_main].
+  rewrite (nodash_not_lit name "-q"%string HD eq_refl), (nodash_not_lit name "--quiet"%string HD eq_refl),
+          (nodash_not_lit name "-i"%string HD eq_refl), (nodash_not_lit name "--input"%string HD eq_refl), HD. reflexivity.
+Qed.
+
+Lemma plf_sq_ascii sq : In sq ["-q"; "--quiet"]%string -> pl_is_ascii (lit sq) = true.
+Proof. intros [<-|[<-|[]]]; reflexivity. Qed.
+Lemma plf_si_ascii si : In si ["-i"; "--input"]%string -> pl_is_ascii (lit si) = true.
+Proof. intros [<-|[<-|[]]]; reflexivity. Qed.
+
+Lemma plf_noT_peb f : pl_starts_dash (lit f) = false -> noT ["-q"; "peb"; "kthlist"; f]%string.
+Proof.
+  intros HD [H|[H|[H|[H|[]]]]]; try discriminate. subst f. discriminate.
+Qed.
+
+(* no transformation *)
+Theorem k2p_equals_peb_plain env f sq si : In sq ["-q"; "--quiet"]%string -> In si ["-i"; "--input"]%string ->
+  pl_is_ascii (lit f) = true -> pl_starts_dash (lit f) = false ->
+  k2p_main [sq; si; f] env = cnfgen_files_main ["-q"; "peb"; "kthlist"; f]%string env.
+Proof.
+  intros Hq Hi HA HD.
+  (* right hand side *)
+  unfold cnfgen_files_main, plf_opts_of, plf_formula, plf_formula_with.
+  rewrite (PipelinePbFacts.pl_chunks_of_noT _ (plf_noT_peb f HD)). cbn [plf_parse_chunks pl_parse_tchunks].
+  rewrite (plf_peb_chunk0 env f HA HD), plf_read_kthlist.
+  (* left hand side *)
+  unfold k2p_main, k2p_quiet_of, k2p_formula, k2p_formula_with, k2p_parse. cbn [map forallb].
+  rewrite (plf_sq_ascii sq Hq), (plf_si_ascii si Hi), HA. cbn [andb negb].
+  rewrite (k2p_parse_quiet env false _ sq _ Hq), (k2p_parse_input env true _ si f [] Hi HD).
+  destruct (plf_open env (lit f)) as [text|]; [|reflexivity].
+  cbn [k2p_parse_main k2p_run_with k2p_trans k2p_input k2p_quiet].
+  pose proof (plf_read_text_k2p text) as R.
+  destruct (plf_read_text GSDag FKthlist text) as [G| |]; rewrite R; reflexivity.
+Qed.
+
+(* one transformation: `kthlist2pebbling .. <t>` is `cnfgen peb .. -T <t>` *)
+Theorem k2p_equals_peb_T env f sq si t tc : In sq ["-q"; "--quiet"]%string -> In si ["-i"; "--input"]%string ->
+  pl_is_ascii (lit f) = true -> pl_starts_dash (lit f) = false ->
+  noT t -> pl_parse_tchunk (map lit t) = PlOk (Some tc) ->
+  k2p_main ([sq; si; f] ++ t) env = cnfgen_files_main (["-q"; "peb"; "kthlist"; f]%string ++ "-T"%string :: t) env.
+Proof.
+  intros Hq Hi HA HD HT Etc.
+  assert (At : forallb pl_is_ascii (map lit t) = true).
+  { unfold pl_parse_tchunk in Etc. destruct (forallb pl_is_ascii (map lit t)); [reflexivity|discriminate]. }
+  assert (Ht : exists name args, map lit t = name :: args /\ pl_starts_dash name = false /\ pl_parse_transformation name args = PlOk tc).
+  { unfold pl_parse_tchunk in Etc. rewrite At in Etc. cbn [negb] in Etc.
+    destruct (map lit t) as [|name args]; [discriminate|]. destruct (pl_starts_dash name) eqn:D; [discriminate|].
+    destruct (pl_parse_transformation name args) as [c| |] eqn:P; try discriminate. inversion Etc; subst. now exists name, args. }
+  destruct Ht as (name & args & Emap & Dn & Ptc).
+  (* right hand side *)
+  unfold cnfgen_files_main, plf_opts_of, plf_formula, plf_formula_with.
+  rewrite (pl_chunks_of_app _ t HT), (PipelinePbFacts.pl_chunks_of_noT _ (plf_noT_peb f HD)).
+  cbn [app plf_parse_chunks pl_parse_tchunks]. rewrite Etc, (plf_peb_chunk0 env f HA HD), plf_read_kthlist.
+  (* left hand side *)
+  unfold k2p_main, k2p_quiet_of, k2p_formula, k2p_formula_with, k2p_parse. cbn [map forallb].
+  rewrite (plf_sq_ascii sq Hq), (plf_si_ascii si Hi), HA, At. cbn [andb negb app].
+  rewrite (k2p_parse_quiet env false _ sq _ Hq), (k2p_parse_input env true _ si f _ Hi HD).
+  destruct (plf_open env (lit f)) as [text|]; [|reflexivity].
+  rewrite Emap, (k2p_parse_trans env true text name args Dn), Ptc.
+  cbn [k2p_run_with k2p_trans k2p_input k2p_quiet].
+  pose proof (plf_read_text_k2p text) as R.
+  destruct (plf_read_text GSDag FKthlist text) as [G| |]; rewrite R; reflexivity.
+Qed.
+
+(* standard input instead of -i <file>: the program depends on the text only *)
+Theorem k2p_stdin_is_input env f sq si t : In sq ["-q"; "--quiet"]%string -> In si ["-i"; "--input"]%string ->
+  pl_is_ascii (lit f) = true -> pl_starts_dash (lit f) = false ->
+  plf_open env (lit f) = Some (plf_stdin env) ->
+  k2p_main ([sq; si; f] ++ t) env = k2p_main (sq :: t) env.
+Proof.
+  intros Hq Hi HA HD HO.
+  unfold k2p_main, k2p_quiet_of, k2p_formula, k2p_formula_with, k2p_parse. cbn [map forallb app].
+  rewrite (plf_sq_ascii sq Hq), (plf_si_ascii si Hi), HA. cbn [andb].
+  rewrite !(k2p_parse_quiet env false _ sq _ Hq), (k2p_parse_input env true _ si f _ Hi HD), HO. reflexivity.
+Qed.
+
+(* ------------------------------------------------------------------ *)
+(* `cnfgen dimacs <file>`                                              *)
+(* ------------------------------------------------------------------ *)
+Definition plf_dimacs_outcome (text : text) : pipeline_result :=
+  if negb (pl_is_ascii text) then POutside
+  else match parse_dimacs false text with
+       | DOk n F => POut (print_dimacs None None n F)
+       | Err _ _ => PCliError
+       end.
+
+Lemma plf_noT_dimacs f : (pl_starts_dash (lit f) = false \/ f = "-"%string) -> noT ["-q"; "dimacs"; f]%string.
+Proof.
+  intros HD [H|[H|[H|[]]]]; try discriminate. subst f. destruct HD as [HD|HD]; discriminate.
+Qed.
+
+Lemma plf_classify_dash_pos f : (pl_starts_dash (lit f) = false \/ f = "-"%string) -> plf_classify_dash (lit f) = PlPos (lit f).
+Proof.
+  intros [HD| ->]; [|reflexivity]. unfold plf_classify_dash. destruct (gs_teqb (lit f) (lit "-")); [reflexivity|].
+  now apply pl_classify_pos.
+Qed.
+
+Lemma plf_dimacs_chunk0 env f : pl_is_ascii (lit f) = true -> (pl_starts_dash (lit f) = false \/ f = "-"%string) ->
+  plf_parse_chunk0 env (map lit ["-q"; "dimacs"; f]%string) =
+  match plf_open env (lit f) with
+  | Some text => PlOk (mk_pl_opts true false, Some (GenDimacs text))
+  | None => PlErr
+  end.
+Proof.
+  intros HA HD. unfold plf_parse_chunk0. cbn [map forallb]. rewrite HA.
+  change (pl_is_ascii (lit "-q")) with true. change (pl_is_ascii (lit "dimacs")) with true.
+  cbn [andb negb]. cbn [plf_parse_main].
+  change (gs_teqb (lit "-q") (lit "-q")) with true. cbn [orb]. cbv iota.
+  change (gs_teqb (lit "dimacs") (lit "-q") || gs_teqb (lit "dimacs") (lit "--quiet")) with false.
+  change (gs_teqb (lit "dimacs") (lit "-v") || gs_teqb (lit "dimacs") (lit "--verbose")) with false.
+  change (gs_teqb (lit "dimacs") (lit "-of") || gs_teqb (lit "dimacs") (lit "--output-format")) with false.
+  change (pl_starts_dash (lit "dimacs")) with false. change (pl_is (lit "dimacs") "dimacs") with true. cbv iota.
+  unfold plf_parse_dimacs. cbn [map]. rewrite (plf_classify_dash_pos f HD). cbn [existsb pl_is_out pl_is_unknown orb].
+  destruct (plf_open env (lit f)); reflexivity.
+Qed.
+
+(* for ALL file contents: the re-printed formula, a clean error, or (a byte >= 128) outside *)
+Theorem files_dimacs_outcome env f : pl_is_ascii (lit f) = true -> (pl_starts_dash (lit f) = false \/ f = "-"%string) ->
+  cnfgen_files_main ["-q"; "dimacs"; f]%string env =
+  match plf_open env (lit f) with
+  | Some text => plf_dimacs_outcome text
+  | None => PCliError
+  end.
+Proof.
+  intros HA HD. unfold cnfgen_files_main, plf_opts_of, plf_formula, plf_formula_with.
+  rewrite (PipelinePbFacts.pl_chunks_of_noT _ (plf_noT_dimacs f HD)). cbn [plf_parse_chunks pl_parse_tchunks].
+  rewrite (plf_dimacs_chunk0 env f HA HD). destruct (plf_open env (lit f)) as [text|]; [|reflexivity].
+  unfold plf_run_with. cbn [plf_g plf_ts plf_o pl_all_some pl_quiet pl_opb plf_start_with]. unfold pl_chain. cbn [fold_left].
+  unfold plf_dimacs_outcome. destruct (negb (pl_is_ascii text)); [reflexivity|].
+  destruct (parse_dimacs false text); reflexivity.
+Qed.
+
+Theorem files_dimacs_stdin_outcome env : cnfgen_files_main ["-q"; "dimacs"]%string env = plf_dimacs_outcome (plf_stdin env).
+Proof.
+  unfold cnfgen_files_main, plf_opts_of, plf_formula, plf_formula_with.
+  assert (N : noT ["-q"; "dimacs"]%string) by (intros [H|[H|[]]]; discriminate).
+  rewrite (PipelinePbFacts.pl_chunks_of_noT _ N). cbn [plf_parse_chunks pl_parse_tchunks].
+  change (plf_parse_chunk0 env (map lit ["-q"; "dimacs"]%string)) with (PlOk (mk_pl_opts true false, Some (GenDimacs (plf_stdin env)))).
+  unfold plf_run_with. cbn [plf_g plf_ts plf_o pl_all_some pl_quiet pl_opb plf_start_with]. unfold pl_chain. cbn [fold_left].
+  unfold plf_dimacs_outcome. destruct (negb (pl_is_ascii (plf_stdin env))); [reflexivity|].
+  destruct (parse_dimacs false (plf_stdin env)); reflexivity.
+Qed.
+
+(* what the writer prints is plain ASCII without carriage returns *)
+Lemma plf_forallb_concat {A} (p : A -> bool) (ls : list (list A)) :
+  (forall l, In l ls -> forallb p l = true) -> forallb p (List.concat ls) = true.
+Proof.
+  induction ls as [|l ls IH]; intros H; [reflexivity|]. cbn [List.concat]. rewrite forallb_app.
+  rewrite (H l (or_introl eq_refl)), IH; [reflexivity|]. intros l' Hl'. apply H. now right.
+Qed.
+
+Lemma plf_print_Z_ascii z : pl_is_ascii (print_Z z) = true.
+Proof.
+  pose proof (print_Z_num z) as H. unfold pl_is_ascii. rewrite forallb_forall in *. intros c Hc. specialize (H c Hc).
+  unfold is_num_char in H. apply orb_true_iff in H as [H|H].
+  - unfold is_digit in H. cbv zeta in H. lia.
+  - apply Ascii.eqb_eq in H. subst c. reflexivity.
+Qed.
+
+Lemma plf_print_dimacs_ascii n F : pl_is_ascii (print_dimacs None None n F) = true.
+Proof.
+  unfold print_dimacs, unlines, pl_is_ascii. apply plf_forallb_concat. intros l Hl.
+  apply in_map_iff in Hl as (e & <- & He). rewrite forallb_app.
+  assert (X : forallb (fun c => code c <? 128) e = true); [|rewrite X; reflexivity].
+  unfold print_entries, comment_entries in He. cbn [app] in He. destruct He as [<-|He].
+  - unfold spec_line. rewrite !forallb_app. fold (pl_is_ascii (print_Z n)). fold (pl_is_ascii (print_Z (len F))).
+    rewrite !plf_print_Z_ascii. reflexivity.
+  - apply in_map_iff in He as (c & <- & _). unfold clause_line. rewrite forallb_app.
+    rewrite plf_forallb_concat; [reflexivity|]. intros l' Hl'. apply in_map_iff in Hl' as (z & <- & _).
+    rewrite forallb_app. fold (pl_is_ascii (print_Z z)). rewrite plf_print_Z_ascii. reflexivity.
+Qed.
+
+Lemma plf_universal_ascii : forall s, pl_is_ascii s = true -> pl_is_ascii (universal s) = true.
+Proof.
+  intros s. remember (List.length s) as k eqn:Hk. revert s Hk. induction k as [k IH] using lt_wf_ind. intros s Hk H.
+  destruct s as [|c r]; [reflexivity|]. cbn [universal]. cbn [pl_is_ascii forallb] in H. apply andb_true_iff in H as [Hc Hr].
+  cbn [List.length] in Hk. destruct (is_cr c).
+  - destruct r as [|c2 r2]; [reflexivity|]. cbn [pl_is_ascii forallb] in Hr. apply andb_true_iff in Hr as [Hc2 Hr2].
+    cbn [List.length] in Hk. destruct (is_lf c2); cbn [pl_is_ascii forallb]; change (code LF <? 128) with true; cbn [andb].
+    + apply (IH (List.length r2)); [lia|reflexivity|exact Hr2].
+    + apply (IH (List.length (c2 :: r2))); [cbn [List.length]; lia|reflexivity|]. cbn [pl_is_ascii forallb]. now rewrite Hc2.
+  - cbn [pl_is_ascii forallb]. rewrite Hc. apply (IH (List.length r)); [lia|reflexivity|exact Hr].
+Qed.
+
+(* idempotence through the tool: what `cnfgen -q dimacs` prints reads back as the formula the input reads as, and
+   the tool prints it again unchanged -- from a file (text mode) and from standard input *)
+Theorem files_dimacs_idempotent text n F : parse_dimacs false text = DOk n F -> printable n -> printable (len F) ->
+  let t := print_dimacs None None n F in
+  (forall u, parse_dimacs u t = DOk n F) /\
+  plf_dimacs_outcome t = POut t /\ plf_dimacs_outcome (universal t) = POut t.
+Proof.
+  intros E P1 P2 t.
+  destruct (parse_sound_proved false text n F E) as (sl & m & _ & _ & _ & Hn & _ & HF).
+  assert (V : valid n F) by (split; assumption).
+  assert (R : forall u, parse_dimacs u t = DOk n F) by (intros u; now apply dimacs_roundtrip_proved).
+  split; [exact R|]. unfold plf_dimacs_outcome. split.
+  - unfold t at 1. rewrite plf_print_dimacs_ascii. cbn [negb]. rewrite (R false). reflexivity.
+  - rewrite plf_universal_ascii by apply plf_print_dimacs_ascii. cbn [negb].
+    change (parse_dimacs false (universal t)) with (parse_dimacs true t). rewrite (R true). reflexivity.
 Qed.
